@@ -15,7 +15,7 @@ HDR_T = {'k': 'obj', 'ns': 'tns', 'name': 'Session'}
 TREES = {'emptymap': {}, 'emptylist': [], 'map1': {'k': 1}, 'list1': [1], 'str': 'str', 'strnum': '5', 'zero': 0, 'one': 1, 'false': False,
          'true': True, 'float': 1.5, 'emptystr': '', 'listlist': [[]], 'personmap': {'name': 'x', 'age': 1},
          'wrapped_person': {'Person': {'name': 'x'}}, 'wrapped_appcircle': {'Circle': {'x': 'y'}},
-         'negfloat': -1.0, 'null': None, 'listnull': [None],
+         'negfloat': -1.0, 'null': None, 'listnull': [None], 'expstr': '1e3', 'expstrneg': '-4e1', 'expfrac': '1.5e3',
          'ydate': datetime.date(2020, 1, 1), 'yset': {1, 2}}
 YAML_ONLY = ('ydate', 'yset')
 
